@@ -28,6 +28,7 @@ type Result struct {
 	ErrAtLex []int // number of Lex calls made when each error was delivered
 	Err      error
 	Mutated  bool // the input buffer was modified
+	TypedNil ast.Vertex // Parse returned a non-nil interface that holds a nil node (kept here; Root is nil then)
 }
 
 func (r *Result) OK() bool    { return r.Panic == nil && !r.Hang }
@@ -83,6 +84,7 @@ func parseNoCopy(buf, src []byte, v *version.Version, withCallback bool) (res Re
 	}
 	res.Root, res.Err = parser.Parse(buf, cfg)
 	if res.Root != nil && isNilVertex(res.Root) {
+		res.TypedNil = res.Root
 		res.Root = nil
 	}
 	return
